@@ -258,6 +258,25 @@ def run(ctx):
                 # (the static-port clause presupposes builder-laid static edges: only without the history)
                 ctx.guard("repo-doc", case, check_hugr_case, ctx, case, "program+history" if variant else "program", True)
                 ctx.case("repo-doc", case, len(c["doc"]["nodes"]) >= 6)
+    # operations typed by hand (the kinds the builders usually type from their wires) put into the graph with the plain
+    # store calls, SOME of their value ports linked, and order links on both sides: the order edge sits after the value
+    # ports of the signature, however few of them are connected
+    from vf.props import c06
+
+    for i in ctx.mine(ctx.n(240, 8000)):
+        r = ctx.rng("typed-partial", i)
+        kind = ["UnpackTuple", "MakeTuple", "CallIndirect", "Noop", "Tag", "Conditional"][i % 6]
+        for _ in range(30):
+            c = c06.gen_case(r, 1, kind=kind)
+            if kind in ("UnpackTuple", "MakeTuple") and len(c["types"]) < 2:
+                continue
+            break
+        case = {"plant": [{"at": 0, "op": c}],
+                "hist": [["add_node", 0, 4, None], ["add_node", 0, 4, None], ["add_link", 1, 0, 2, 0],
+                         ["add_link", 3, 0, 1, 0], ["add_order_link", 1, 3], ["add_order_link", 2, 1]]}
+        ctx.feat("feature:hand-typed-op-partially-connected")
+        info = ctx.guard("typed-partial", case, check_hugr_case, ctx, case, "attr-rich", i % 4 == 0)
+        ctx.case("typed-partial", case, True)
     n = ctx.n(1200, 40000)
     every = 4 if ctx.quick else 1
     for i in ctx.mine(n):
